@@ -252,7 +252,7 @@ class Run:
             for what, expd in judge(c, il, by_idx.get(i, [])):
                 self.viol.append(Violation("O", what, case=c, impl=il, expected=expd, variant=variant))
             # K: model = real code
-            if model is not None and spec.get("k", True):
+            if model is not None and spec.get("k", True) and not il.startswith("skipped ;"):
                 ml = model[i]
                 left = ml.split(" | ")[0].strip()
                 kf = spec.get("kview")
